@@ -7,6 +7,7 @@ import (
 	"fmt"
 	"go/ast"
 	"go/token"
+	"go/types"
 	"regexp"
 	"sort"
 	"strconv"
@@ -251,6 +252,7 @@ func checkC14(c *Ctx, e *Env) {
 	m, r := e1Handlers(c, e)
 	p := m.P
 	noteUndecided(c, m, r, "C14.E1")
+	ruleIdentifierRegexps(c, m, r)
 	// ---------------- LANG
 	specs := []fmtSpec{
 		{basePkg, "FormatClassID", "regexClassID", map[int]string{0: "RegexCreditTypeAbbrev"}},
@@ -392,31 +394,78 @@ func checkC14(c *Ctx, e *Env) {
 			c.Undecide("C14.SEP", "parser:"+fnName, "-", "parser not found")
 			continue
 		}
-		var consts []int64
-		for _, b := range fn.Blocks {
-			for _, in := range b.Instrs {
-				if bo, ok := in.(*ssa.BinOp); ok && (bo.Op == token.EQL || bo.Op == token.NEQ) {
-					if v, isC := constInt(bo.Y); isC {
-						consts = append(consts, v)
+		// constants the parser (with the hand-written helpers it calls and the stop predicates / closures it
+		// hands to them) compares runes with, and the integer ordinals it compares counters with
+		var runeConsts, intConsts []int64
+		seenFn := map[*ssa.Function]bool{}
+		var scan func(f *ssa.Function, depth int)
+		scan = func(f *ssa.Function, depth int) {
+			if f == nil || seenFn[f] || depth > 3 || len(f.Blocks) == 0 || !isRepoPkgPath(fnPkgPath(f)) {
+				return
+			}
+			seenFn[f] = true
+			for _, b := range f.Blocks {
+				for _, in := range b.Instrs {
+					switch y := in.(type) {
+					case *ssa.BinOp:
+						if y.Op != token.EQL && y.Op != token.NEQ {
+							continue
+						}
+						v, isC := constInt(y.Y)
+						other := y.X
+						if !isC {
+							v, isC = constInt(y.X)
+							other = y.Y
+						}
+						if !isC {
+							continue
+						}
+						if bt, isB := other.Type().Underlying().(*types.Basic); isB {
+							switch bt.Kind() {
+							case types.Int32, types.Uint8:
+								runeConsts = append(runeConsts, v)
+							case types.Int, types.Int64, types.Uint, types.Uint64:
+								intConsts = append(intConsts, v)
+							}
+						}
+					case *ssa.MakeClosure:
+						if cf, isF := y.Fn.(*ssa.Function); isF {
+							scan(cf, depth+1)
+						}
+					case ssa.CallInstruction:
+						cc := y.Common()
+						scan(cc.StaticCallee(), depth+1)
+						for _, a := range cc.Args {
+							switch fv := a.(type) {
+							case *ssa.Function:
+								scan(fv, depth+1)
+							case *ssa.MakeClosure:
+								if cf, isF := fv.Fn.(*ssa.Function); isF {
+									scan(cf, depth+1)
+								}
+							}
+						}
 					}
 				}
 			}
 		}
-		ok := true
-		for _, w := range want {
+		scan(fn, 0)
+		ok := len(runeConsts) > 0
+		for _, v := range runeConsts {
+			if v != '-' {
+				ok = false
+			}
+		}
+		if len(want) > 1 { // the second dash
 			found := false
-			for _, v := range consts {
-				if v == w {
+			for _, v := range intConsts {
+				if v == want[1] {
 					found = true
 				}
 			}
 			ok = ok && found
 		}
-		for _, v := range consts {
-			if v != '-' && v != 2 {
-				ok = false
-			}
-		}
+		consts := append(append([]int64{}, runeConsts...), intConsts...)
 		c.Check(ok, "C14.SEP", "parser:"+fnName, p.Pos(fn.Pos()), fmt.Sprintf("parser compares runes with '-' (and the dash ordinal 2 for project ids): constants %v", consts))
 	}
 	nDim := ruleKeyDims(c, m, "C14.KEYDIM", func(pkg string) bool { return strings.Contains(pkg, "/keeper") })
@@ -682,7 +731,6 @@ func ruleUniqueAndFK(c *Ctx, m *Model, r *E1) {
 	c.Min("reference-column write sites", 30, len(ks))
 }
 
-
 // globRef: a value that is (a field path into) a package-level variable.
 type globRef struct {
 	g      *ssa.Global
@@ -935,4 +983,104 @@ func onPath(bp []*ssa.BasicBlock, b *ssa.BasicBlock) bool {
 		}
 	}
 	return false
+}
+
+// ---- REGEX: a regular expression applied to an identifier accepts every identifier of that kind -------
+//
+// Handlers sometimes take identifiers apart (class id out of a batch denom). The sanctioned extractors are
+// covered by SEP; a regular expression written for the purpose must at least match every identifier the
+// validator of that kind accepts — `[0-9]{2}` where the format says `[0-9]{2,}` works until the hundredth
+// class. Decided by language inclusion (all strings), on every regexp call the explorer meets whose
+// subject is a stored or requested identifier.
+
+var idSubjectKinds = []struct {
+	re        *regexp.Regexp
+	pkg, decl string
+}{
+	{regexp.MustCompile(`(^Batch#\d+\.Denom$|\.BatchDenom$)`), "x/ecocredit/v3/base", "RegexBatchDenom"},
+	{regexp.MustCompile(`(^Class#\d+\.Id$|\.ClassId$)`), "x/ecocredit/v3/base", "RegexClassID"},
+	{regexp.MustCompile(`(^Project#\d+\.Id$|\.ProjectId$)`), "x/ecocredit/v3/base", "RegexProjectID"},
+	{regexp.MustCompile(`(^Basket#\d+\.BasketDenom$|\.BasketDenom$)`), "x/ecocredit/v3/basket", "RegexBasketDenom"},
+}
+
+func ruleIdentifierRegexps(c *Ctx, m *Model, r *E1) {
+	p := m.P
+	seen := map[string]bool{}
+	n := 0
+	for _, h := range r.Handlers {
+		for _, o := range h.Outs {
+			st := o.St
+			for i := range st.events {
+				ev := &st.events[i]
+				if ev.Kind != "call" || !strings.HasPrefix(ev.Method, "regexp.") || len(ev.Args) < 2 || ev.Pos == nil {
+					continue
+				}
+				call, isCall := ev.Pos.(*ssa.Call)
+				if !isCall || len(call.Call.Args) < 2 {
+					continue
+				}
+				subject := st.canon(ev.Args[1])
+				var kind *struct {
+					re        *regexp.Regexp
+					pkg, decl string
+				}
+				for k := range idSubjectKinds {
+					if idSubjectKinds[k].re.MatchString(subject) {
+						kk := idSubjectKinds[k]
+						kind = &struct {
+							re        *regexp.Regexp
+							pkg, decl string
+						}{kk.re, kk.pkg, kk.decl}
+						break
+					}
+				}
+				if kind == nil {
+					continue
+				}
+				key := funcKey(ev.Fn) + "#" + ev.Method + "(" + kind.decl + ")"
+				if seen[key] {
+					continue
+				}
+				seen[key] = true
+				n++
+				pos := p.Pos(call.Pos())
+				gr, ok := resolveGlobRef(call.Call.Args[0], nil, 0)
+				if ok {
+					gr, ok = globalFieldInit(gr, 0)
+				}
+				if !ok || gr.g.Pkg == nil || len(gr.fields) != 0 {
+					c.Undecide("C14.REGEX", key, pos, "a regular expression that is not a package-level variable is applied to "+subject)
+					continue
+				}
+				src, _, okS := regexSourceOf(p, shortPkg(gr.g.Pkg.Pkg.Path()), gr.g.Name())
+				declared, okD := varString(p, kind.pkg, kind.decl)
+				if !okS || !okD {
+					c.Undecide("C14.REGEX", key, pos, "regular expression source of "+gr.g.Name()+" or "+kind.decl+" is not statically evaluable")
+					continue
+				}
+				open := src
+				if strings.HasPrefix(open, "^") {
+					open = open[1:]
+				} else {
+					open = "(?s:.*)" + open
+				}
+				if strings.HasSuffix(open, "$") && !strings.HasSuffix(open, "\\$") {
+					open = open[:len(open)-1]
+				} else {
+					open = open + "(?s:.*)"
+				}
+				inc, cex, _, err := langIncluded(declared, open)
+				switch {
+				case err != nil:
+					c.Undecide("C14.REGEX", key, pos, "language inclusion not decided: "+err.Error())
+				case inc:
+					c.Hold("C14.REGEX", key, pos, fmt.Sprintf("/%s/ (%s) matches every string of %s", src, gr.g.Name(), kind.decl), nil)
+				default:
+					c.Violate("C14.REGEX", key, pos, fmt.Sprintf("/%s/ (%s) is applied to %s but does not match the valid identifier %q (%s): handlers that take identifiers apart with it fail for identifiers the chain itself generates and accepts", src, gr.g.Name(), subject, cex, kind.decl), nil)
+				}
+			}
+		}
+	}
+	c.Count("identifier_regexp_sites", n)
+	c.ExpectCanary("C14.REGEX")
 }
